@@ -4,6 +4,7 @@ import (
 	"debug/elf"
 	"hash/fnv"
 	"os"
+	"runtime/debug"
 	"sort"
 	"strings"
 	"unsafe"
@@ -79,20 +80,52 @@ func LibraryGlobals() ([]GlobalSym, error) {
 	return globalSyms, nil
 }
 
-// GlobalsDigest hashes the current bytes of every library global (shallow: slice / map / pointer
-// variables contribute their header words; static backing arrays are symbols of their own).
+// GlobalsDigest hashes the current bytes of every library global, one level deep: the symbol's own bytes
+// (slice / map / pointer variables contribute their header words; static backing arrays are symbols of their
+// own) plus, for every word that points into the Go heap, the first bytes of its target - the element count of
+// a map (first word of the runtime's map header), the leading fields of a struct, and for a (pointer, len, cap)
+// triple the first len bytes of the slice's backing array (in-place writes to a package-level scratch buffer).
 func GlobalsDigest() map[string]uint64 {
 	syms, err := LibraryGlobals()
 	if err != nil {
 		return nil
 	}
 	out := make(map[string]uint64, len(syms))
+	old := debug.SetPanicOnFault(true)
+	defer debug.SetPanicOnFault(old)
 	for _, s := range syms {
 		h := fnv.New64a()
-		h.Write(unsafe.Slice((*byte)(unsafe.Pointer(s.Addr)), int(s.Size)))
+		raw := unsafe.Slice((*byte)(unsafe.Pointer(s.Addr)), int(s.Size))
+		h.Write(raw)
+		if s.Addr%8 == 0 {
+			nw := int(s.Size / 8)
+			words := unsafe.Slice((*uintptr)(unsafe.Pointer(s.Addr)), nw)
+			for i := 0; i < nw; i++ {
+				p := words[i]
+				if !heapPointer(p) {
+					continue
+				}
+				n := uintptr(16)
+				if i+2 < nw && words[i+1] <= words[i+2] && words[i+2] < 1<<32 && words[i+1] > 16 {
+					n = words[i+1] // slice header: at least len bytes are addressable
+					if n > 1<<16 {
+						n = 1 << 16
+					}
+				}
+				derefHash(h, p, n)
+			}
+		}
 		out[s.Name] = h.Sum64()
 	}
 	return out
+}
+
+// heapPointer: the address range of the Go heap arenas on linux/amd64.
+func heapPointer(p uintptr) bool { return p >= 0xc000000000 && p < 0xc000000000+1<<40 && p%8 == 0 }
+
+func derefHash(h interface{ Write([]byte) (int, error) }, p, n uintptr) {
+	defer func() { recover() }() // an unmapped target (never seen for live globals) simply contributes nothing
+	h.Write(unsafe.Slice((*byte)(unsafe.Pointer(p)), int(n)))
 }
 
 // GlobalsDiff lists the symbols whose bytes differ between two digests.
